@@ -18,7 +18,9 @@ Inductive oresult :=
 | OOk (rows : list orow) (pre : list (string * list string)) (names : list string) (sub : N) (builtin_ok ident : bool).
 (* runs refer to the table of distinct observations of the case (the orders usually agree) *)
 Record run := mkRun { run_exp : mexp; run_obs : nat }.
-Record case := mkCase { c_inputs : list (list tsop); c_obs : list oresult; c_runs : list run; c_pure : bool }.
+(* an input: TypeSystem() or TypeSystem(add_document_annotation_type=False), then a history of create_type / create_feature *)
+Inductive inp := I (ops : list tsop) | Ind (ops : list tsop).
+Record case := mkCase { c_inputs : list inp; c_obs : list oresult; c_runs : list run; c_pure : bool }.
 
 (* compact constructors and names for the case files *)
 Definition T (n s : string) : tsop := OCreateType n s None.
@@ -59,15 +61,15 @@ Definition row_ok (ts : tsys) (r : orow) : bool :=
   | Some t => ostr_eqb (t_super t) (or_super r) && same_set (t_children t) (or_children r)
               && same_feats (map ofeat_of (t_own t)) (or_own r) && same_feats (map ofeat_of (all_features t)) (or_eff r)
   end.
-(* the predefined part of the result is what TypeSystem() builds, apart from children that are not predefined *)
+(* the predefined part of the result is what TypeSystem() builds, apart from children that are not predefined.  The merged
+   type system starts as init_ts and is only mapped over and appended to, so positions are kept: compared positionally. *)
 Definition feat_list_same := list_eqb feat_same.
-Definition builtin_unchanged (ts : tsys) : bool :=
-  forallb (fun t0 => negb (is_predef (t_name t0)) ||
-             match find_ty ts (t_name t0) with
-             | None => false
-             | Some t => ostr_eqb (t_super t) (t_super t0) && feat_list_same (t_own t) (t_own t0) && feat_list_same (t_inh t) (t_inh t0)
-                         && list_str_eqb (filter is_predef (t_children t)) (filter is_predef (t_children t0))
-             end) init_ts.
+Definition pre_same (t t0 : ty) : bool :=
+  String.eqb (t_name t) (t_name t0) &&
+  (negb (is_predef (t_name t0)) ||
+   (ostr_eqb (t_super t) (t_super t0) && feat_list_same (t_own t) (t_own t0) && feat_list_same (t_inh t) (t_inh t0)
+    && list_str_eqb (filter is_predef (t_children t)) (filter is_predef (t_children t0)))).
+Definition builtin_unchanged (ts : tsys) : bool := list_eqb pre_same (firstn (List.length init_ts) ts) init_ts.
 Definition user_children (t : ty) : list string := filter (fun c => negb (is_predef c)) (t_children t).
 Definition pre_ok (ts : tsys) (pre : list (string * list string)) : bool :=
   forallb (fun t => negb (is_predef (t_name t)) ||
@@ -104,14 +106,19 @@ Definition res_same (a b : res tsys) : bool :=
   match a, b with
   | Ok x, Ok y => list_eqb ty_same x y | Err x, Err y => err_eqb x y | _, _ => false end.
 
-Definition inputs_of (c : case) : list tsys := map (fun ops => final_ts ops init_ts) (c_inputs c).
+Definition ops_of (i : inp) : list tsop := match i with I ops => ops | Ind ops => ops end.
+Definition start_of (i : inp) : tsys := match i with I _ => init_ts | Ind _ => init_ts_nodoc end.
+Definition input_of (i : inp) : tsys := final_ts (ops_of i) (start_of i).
+Definition inputs_of (c : case) : list tsys := map input_of (c_inputs c).
 Definition check_run (ins : list tsys) (obs : list oresult) (r : run) : bool :=
   let a := eval fn_form ins (run_exp r) in
   let b := eval mech_form ins (run_exp r) in
   res_same a b && match nth_error obs (run_obs r) with Some o => obs_ok a o | None => false end.
+Definition all_ok (i : inp) (out : list opres) : bool := list_eqb opres_eqb out (map (fun _ => ROk) (ops_of i)).
 Definition check_case (c : case) : bool :=
-  let ins := inputs_of c in
-  c_pure c && forallb (fun ops => list_eqb opres_eqb (snd (run_ts ops init_ts)) (map (fun _ => ROk) ops)) (c_inputs c)
+  let rs := map (fun i => run_ts (ops_of i) (start_of i)) (c_inputs c) in
+  let ins := map fst rs in
+  c_pure c && forallb (fun p => all_ok (fst p) (snd (snd p))) (combine (c_inputs c) rs)
   && forallb (check_run ins (c_obs c)) (c_runs c).
 
 (* premises of the theorems of Props/C13.v: every input satisfies the invariant (hierarchy and features) *)
